@@ -426,3 +426,43 @@ func genFilter(r *lib.Rng) []Ev {
 	}
 	return evs
 }
+
+// genFilterStall: a history for a consumer that stops reading: 40-90 events, mostly received lines
+// of which most pass (all-pass, or a broad accept pattern with a narrow deny), interleaved with
+// filter commands; regenerated until the rule lets through clearly more lines than the log
+// channel holds.
+func genFilterStall(r *lib.Rng, need int) []Ev {
+	for {
+		n := r.Range(40, 90)
+		var evs []Ev
+		if r.Chance(2, 3) {
+			evs = append(evs, Ev{A: "accept", S: r.Pick([]string{`.`, ``, `[a-zA-Z]`, `^.`})})
+			if r.Chance(1, 2) {
+				evs = append(evs, Ev{A: "deny", S: r.Pick([]string{`[0-9]`, `^foo`, `%`, `T`})})
+			}
+		}
+		for i := 0; i < n; i++ {
+			if r.Chance(12, 100) {
+				switch x := r.Intn(100); {
+				case x < 40:
+					evs = append(evs, Ev{A: "accept", S: r.Pick([]string{`.`, `[a-h]`, `[R-Z]`, `o`, `^.`, `\d`})})
+				case x < 65:
+					evs = append(evs, Ev{A: "deny", S: r.Pick([]string{`[0-9]`, `^foo`, `%`, `T`, `zzz`})})
+				case x < 90:
+					evs = append(evs, Ev{A: "reset"})
+				default:
+					evs = append(evs, Ev{A: "unknown"})
+				}
+				continue
+			}
+			l := r.Pick(filtLines)
+			if r.Chance(1, 3) {
+				l = "m" + strconv.Itoa(i) + " " + randText(r, r.Range(0, 8))
+			}
+			evs = append(evs, Ev{S: l})
+		}
+		if len(ruleOutput(evs)) >= need+12 {
+			return evs
+		}
+	}
+}
